@@ -12,8 +12,8 @@
    event is exactly at the horizon is covered by neither clause, the code deletes it
    (C14_boundary_segment_is_deleted). *)
 From Coq Require Import Permutation.
-From SigM Require Import Base Retention.
-From SigP Require Import BaseProofs RetentionProofs.
+From SigM Require Import Base Retention RetentionMem.
+From SigP Require Import BaseProofs RetentionProofs RetentionMemProofs.
 Open Scope N_scope.
 
 (* the selection test, spelled out *)
@@ -175,7 +175,26 @@ Section Orders.
     (forall q, In q (mem A) <-> In q (mem B)) /\ (forall q, In q (mmem A) <-> In q (mmem B)) /\
     dirs A = dirs B /\ vtables A = vtables B.
   Proof. exact (interrupted_then_repeated_guarded ord ordp ordn ord_perm ordp_perm ordn_perm). Qed.
+
+  (* The in-memory metadata of rotated log segments is kept in THREE views (RetentionMem.v: global
+     slice, reverse index, one slice per index name; the last one is what queries enumerate:
+     FilterSegmentsByTime, GetAllColNames ...).  [mem] above is their abstraction.  For every store,
+     every views m that agree with each other and hold the keys of [mem st], every horizon, org
+     and map iteration order, with ANY LatestEpochMS values (several segments of one index ending
+     on the same millisecond, the same index name in two orgs): after the pass the views still
+     agree, their key set is [mem] of the model's outcome, and a query over any time range, index
+     and org is handed exactly what it was handed before minus the selected segments. *)
+  Theorem C14_queries_enumerate_exactly_the_survivors : forall m hz org st,
+    views_agree m = true -> mem_abs m = mem st ->
+    let st' := run ord ordp ordn hz org st in
+    let m' := apply_mem_effs (pass_effs ord ordp ordn hz org st) m in
+    consistent m' /\ mem_abs m' = mem st' /\
+    forall lo hi t o k,
+      In k (enumerate lo hi t o m') <->
+      In k (enumerate lo hi t o m) /\ forall s, In s (segmeta st) -> expired hz org s = true -> s_dir s <> k.
+  Proof. exact (pass_views ord ordp ordn ord_perm ordp_perm ordn_perm). Qed.
 End Orders.
+Print Assumptions C14_queries_enumerate_exactly_the_survivors.
 Print Assumptions C14_retention_selects_exactly.
 Print Assumptions C14_interrupted_then_repeated_guarded.
 Print Assumptions C14_interrupted_survivor_searchable.
@@ -278,3 +297,70 @@ Theorem C14_prefix_metrics_pass_aborts_refuted :
     mmeta (run idl idl idl hz org st) = [] /\ ~ In (s_dir s) (dirs (run idl idl idl hz org st)).
 Proof. exists w_ab_store, 500000, 0%Z, w_ab_seg. exact metrics_abort_witness. Qed.
 Print Assumptions C14_prefix_metrics_pass_aborts_refuted.
+
+(* ---- the three views of the in-memory metadata (RetentionMem.v) --------------------------- *)
+
+(* deleteSegmentKeyWithLock, as coded (the entry is identified by scanning for the segment key):
+   the key leaves the global slice, the reverse index and its index's slice, nothing else changes
+   (order included), the views still describe one set of segments, and the single list [mem] of
+   the pass model follows by del_path.  No hypothesis on LatestEpochMS or on the slice order. *)
+Theorem C14_delete_removes_the_key_from_all_views : forall m k, views_agree m = true ->
+  mm_all (md_delete k m) = filter (fun e => negb (key_is k e)) (mm_all m) /\
+  mm_rev (md_delete k m) = del_path k (mm_rev m) /\
+  mm_tables (md_delete k m) = map (fun tl => (fst tl, filter (fun e => negb (key_is k e)) (snd tl))) (mm_tables m) /\
+  mem_abs (md_delete k m) = del_path k (mem_abs m) /\
+  consistent (md_delete k m).
+Proof. exact views_delete. Qed.
+Print Assumptions C14_delete_removes_the_key_from_all_views.
+
+(* DeleteSegmentData hands the selected segments to DeleteSegmentKey in Go's map iteration order:
+   any two orders give the same three views, and a query is handed what it was handed before
+   minus the deleted keys *)
+Theorem C14_deletion_order_is_irrelevant : forall m ks ks', views_agree m = true -> Permutation ks ks' ->
+  md_deletes ks m = md_deletes ks' m /\ consistent (md_deletes ks m) /\
+  forall lo hi t org k, In k (enumerate lo hi t org (md_deletes ks m)) <-> In k (enumerate lo hi t org m) /\ ~ In k ks.
+Proof. exact views_deletion_order. Qed.
+Print Assumptions C14_deletion_order_is_irrelevant.
+
+(* (5) not a defect of siglens, the reason why the slices are scanned for the key: they are sorted
+   by LatestEpochMS only, so with two segments of one index ending on the same millisecond the
+   sort key does not identify an entry.  [md_delete_by_latest] (binary search for the first entry
+   with LatestEpochMS <= that of the deleted segment, removal if its key matches) leaves the
+   second segment of a tied pair in the index's slice: every query is still handed the key of a
+   segment that the other two views no longer know.  Full statement (holds for md_delete, above):
+     views_agree m = true -> consistent (delete k m)
+   Guarded: without ties it is the coded deletion; refuted: witness with one tie. *)
+Theorem C14_lookup_by_latest_guarded : forall m k,
+  views_agree m = true -> views_sorted m = true -> no_ties m = true ->
+  md_delete_by_latest k m = md_delete k m.
+Proof. exact by_latest_guarded. Qed.
+Print Assumptions C14_lookup_by_latest_guarded.
+
+Theorem C14_lookup_by_latest_refuted :
+  exists m k, views_agree m = true /\ views_sorted m = true /\
+    (~ In k (enumerate 0 100 7 0%Z (md_delete k m)) /\ views_agree (md_delete k m) = true) /\
+    In k (enumerate 0 100 7 0%Z (md_delete_by_latest k m)) /\ ~ In k (mem_abs (md_delete_by_latest k m)) /\
+    views_agree (md_delete_by_latest k m) = false.
+Proof. exact by_latest_refuted. Qed.
+Print Assumptions C14_lookup_by_latest_refuted.
+
+Example C14_views_hypotheses_satisfiable :
+  views_agree tie_witness = true /\ no_ties (md_delete [1;2] tie_witness) = true /\ no_ties tie_witness = false.
+Proof. exact views_hypotheses_satisfiable. Qed.
+
+(* (6) not a defect with respect to the property text, recorded because the harness's oracle
+   "a second pass changes nothing" has to know it: a CYCLE of passes over several orgs is not
+   idempotent on the index-names files.  DeleteEmptyIndices keeps an index name of the org while a
+   segmeta.json line of ANY org uses the name; with the same index name in org 0 and org 1 and all
+   its segments expired, the pass for org 0 keeps the (empty) name, the pass for org 1 removes the
+   lines, and only the next pass for org 0 drops the name.  Every single pass is idempotent on the
+   store it finds (last two clauses); no segment, line or searchable datum is involved. *)
+Theorem C14_two_org_cycle_keeps_a_shared_index_name :
+  exists st hz, wf st = true /\
+    segmeta (cycle01 hz st) = [] /\
+    vtables (cycle01 hz st) = [(0%Z, 7)] /\
+    vtables (cycle01 hz (cycle01 hz st)) = [] /\
+    run idl idl idl hz 0 (run idl idl idl hz 0 st) = run idl idl idl hz 0 st /\
+    run idl idl idl hz 1 (cycle01 hz st) = cycle01 hz st.
+Proof. exists w_2o_store, 500. exact two_org_cycle_witness. Qed.
+Print Assumptions C14_two_org_cycle_keeps_a_shared_index_name.
